@@ -76,8 +76,11 @@ def gen_generics(ctx):
     elif c == 8:
         # parameters named like the identifiers the templates pick (hasher parameter `__H`, then `__H_`, ...)
         g.params = [dict(kind='type', name='__H'), dict(kind='const', name='__H_', ty='usize')]
-    else:
+    elif c == 9 and r.random() < 0.5:
         g.params = [dict(kind='const', name='__H', ty='usize'), dict(kind='type', name='__H_'), dict(kind='type', name='T')]
+    else:
+        # no type parameter at all: only a const (and perhaps a lifetime) carries the template-like name
+        g.params = ([dict(kind='life', name='a')] if r.random() < 0.4 else []) + [dict(kind='const', name=pick(r, ['__H', '__H', '__H_', 'N']), ty='usize')]
     ctx.generics = g
     ctx.type_params = [p['name'] for p in g.params if p['kind'] == 'type']
     ctx.lifetimes = [p['name'] for p in g.params if p['kind'] == 'life']
@@ -223,12 +226,19 @@ class TG:
         nfields | ftype); must draw from ctx.rng only; default: leave it"""
         return value
 
+def union_field_fault(ctx, name):
+    """a union field takes no PartialEq / Hash parameter at all: any of them is an invalid construct"""
+    if own_fault(ctx, 0.12):
+        ctx.fault = 'union_field_param:' + name
+        return pick(ctx.rng, ['%s(ignore)', '%s = false', '%s(method(m))', '%s(ignore = true)', '%s(method = m)', '%s(ignore(true))']) % name
+    return None
+
 class G_PartialEq(TG):
     name = 'PartialEq'
     union_unsafe = True
     def field_meta(self, ctx, field):
         if ctx.kind == 'union':
-            return None
+            return union_field_fault(ctx, 'PartialEq')
         name = 'PartialEq'
         if 'Eq' in ctx.traits and ctx.rng.random() < 0.3:
             name = 'Eq'            # documented synonym when Eq is educed
@@ -247,7 +257,7 @@ class G_Hash(TG):
     union_unsafe = True
     def field_meta(self, ctx, field):
         if ctx.kind == 'union':
-            return None
+            return union_field_fault(ctx, 'Hash')
         return ignore_method_field(ctx, 'Hash')
 
 
